@@ -425,6 +425,11 @@ func (fc *funcContext) translateExpr(expr ast.Expr) *expression {
 				if v := fc.pkgCtx.Types[e.Y].Value; v != nil {
 					i, _ := constant.Uint64Val(constant.ToInt(v))
 					if i >= 32 {
+						if e.Op == token.SHR && !isUnsigned(basic) {
+							// An arithmetic shift fills with the sign bit: -1 for a
+							// negative operand, 0 otherwise.
+							return fc.fixNumber(fc.formatParenExpr("%e >> 31", e.X), basic)
+						}
 						return fc.formatExpr("0")
 					}
 					return fc.fixNumber(fc.formatExpr("%e %s %s", e.X, op, strconv.FormatUint(i, 10)), basic)
